@@ -60,13 +60,7 @@ fn short_creds(pw: &[u8; 3], n: usize) -> MessageIntegrityCredentials {
 /// a: validation hands the right bytes, key and expected value to the MAC, and turns the MAC's
 /// verdict into its own.  Symbolic accepted message (<= 2 attributes, up to 64 bytes), symbolic
 /// short-term password of 0..=3 ASCII bytes.
-#[kani::proof]
-#[kani::unwind(5)]
-#[kani::stub(stun_types::attribute::Fingerprint::compute, crc_stub)]
-#[kani::stub(stun_types::attribute::MessageIntegrity::verify, verify_sha1_stub)]
-#[kani::stub(stun_types::attribute::MessageIntegritySha256::verify, verify_sha256_stub)]
-fn c04_validate_record() {
-    const N: usize = 64;
+fn validate_record<const N: usize>() {
     let mut buf: [u8; N] = kani::any();
     let len: usize = kani::any();
     kani::assume(len <= N);
@@ -176,11 +170,28 @@ fn c04_validate_record() {
         }
     }
     kani::cover!(res.is_ok() && mi.is_some() && sha.is_none());
-    kani::cover!(res.is_ok() && sha.is_some() && mi.is_some());
+    kani::cover!(N < 64 || (res.is_ok() && sha.is_some() && mi.is_some()));
     kani::cover!(res.is_ok() && sha.is_some() && r.alen[sha.unwrap()] == 16 && r.n == 2);
     kani::cover!(calls == 1 && res.is_err());
     kani::cover!(calls == 0 && mi.is_some());
 }
+
+macro_rules! vr {
+    ($name:ident, $N:expr) => {
+        #[kani::proof]
+        #[kani::unwind(5)]
+        #[kani::stub(stun_types::attribute::Fingerprint::compute, crc_stub)]
+        #[kani::stub(stun_types::attribute::MessageIntegrity::verify, verify_sha1_stub)]
+        #[kani::stub(stun_types::attribute::MessageIntegritySha256::verify, verify_sha256_stub)]
+        fn $name() {
+            validate_record::<$N>();
+        }
+    };
+}
+// 64 bytes: fits [MESSAGE-INTEGRITY, SHA256 truncated to 16]; 44 bytes (quick tier): [MESSAGE-INTEGRITY],
+// [X, SHA256 of 16 bytes], [SHA256 of 16/20 bytes]
+vr!(c04_validate_record, 64);
+vr!(c04_validate_record_44, 44);
 
 /// a: long-term key = MD5(user ":" realm ":" password) -- concrete credentials, message
 /// [MESSAGE-INTEGRITY] with symbolic value; key compared with the independent MD5
